@@ -872,6 +872,107 @@ def table_variants(mod, x, rng, limit):
     return out
 
 
+def stripped_prefixes(mod, canon):
+    """the prefixes P that validate() of this module strips: validate(P + v) == v for a canonical valid number v.
+    Candidates: prefix_candidates(mod) (startswith() literals of the module source and the package's country code)"""
+    out = []
+    for p in prefix_candidates(mod):
+        for P in (p, p.upper()):
+            if not P or P in out:
+                continue
+            for v in canon[:3]:
+                o = call(mod, 'validate', mod.validate, (P + v,), {})
+                if o[0] == 'ok' and o[1] == v:
+                    out.append(P)
+                    break
+    return out
+
+
+def own_prefix_numbers(mod, valid, rng, budget):
+    """[(label, y)]: numbers whose body itself begins with the text of a prefix that the module strips or carries (the
+    national number FR100000009 of fr.tva: its two check characters are the letters FR; written with its prefix it
+    is FRFR100000009, also for eu.vat / vatin).  Code that decides by text (`startswith(P)`) whether the prefix is
+    present strips such a number once too often.
+    Prefixes: the ones validate() strips (stripped_prefixes: validate(P + v) == v) and the leading two-letter codes
+    that canonical numbers carry (eu.vat, vatin, iban ...: v == P + body).  For every prefix P and a few canonical
+    numbers: the first len(P) characters of the body are overwritten with P and up to two other positions are
+    repaired by search within their character class (digits by digits, letters by letters) until
+    validate(P + n) is n or P + n; about `budget` validate calls per module (at least 400 per prefix).
+    Yields P + n, P.lower() + n and n itself for every hit (at most two hits per prefix)."""
+    canon = []
+    for x in valid:
+        o = call(mod, 'validate', mod.validate, (x,), {})
+        if o[0] == 'ok' and isinstance(o[1], str) and o[1] not in canon and \
+                call(mod, 'validate', mod.validate, (o[1],), {})[:2] == ('ok', o[1]):
+            canon.append(o[1])
+        if len(canon) >= 120:
+            break
+    if not canon:
+        return []
+    plan = []       # (P, [bodies])
+    for P in stripped_prefixes(mod, diverse(canon, 6)):
+        plan.append((P, diverse(canon, 6)))
+    carried = {}
+    for v in canon:
+        if len(v) > 5 and v[:2].isascii() and v[:2].isalpha() and v[:2].isupper():
+            carried.setdefault(v[:2], [])
+            if len(carried[v[:2]]) < 3:
+                carried[v[:2]].append(v[2:])
+    for P in carried:
+        if not any(P == q for q, _b in plan):
+            plan.append((P, carried[P]))
+    if not plan:
+        return []
+    per_prefix = max(budget // len(plan), 400)
+
+    def klass(ch):
+        return ('0123456789' if ch in '0123456789' else 'ABCDEFGHIJKLMNOPQRSTUVWXYZ' if 'A' <= ch <= 'Z' else
+                'abcdefghijklmnopqrstuvwxyz' if 'a' <= ch <= 'z' else '')
+
+    def search_from(P, z, spent):
+        def ok(t):
+            spent[0] += 1
+            o = call(mod, 'validate', mod.validate, (P + t,), {})
+            return o[0] == 'ok' and o[1] in (t, P + t)
+        if ok(z):
+            return z
+        pos = [i for i in range(len(P), len(z)) if klass(z[i])]
+        for i in pos:
+            for a in klass(z[i]):
+                if a != z[i] and ok(z[:i] + a + z[i + 1:]):
+                    return z[:i] + a + z[i + 1:]
+        for i in reversed(pos):                 # check characters tend to be at the end
+            for j in reversed(pos):
+                if j <= i:
+                    continue
+                for a in klass(z[i]):
+                    for b in klass(z[j]):
+                        if spent[0] > per_prefix:
+                            return None
+                        t = z[:i] + a + z[i + 1:j] + b + z[j + 1:]
+                        if ok(t):
+                            return t
+        return None
+
+    out = []
+    for P, bodies in plan:
+        hits = 0
+        spent = [0]
+        for b0 in bodies:
+            if hits >= 2 or spent[0] > per_prefix:
+                break
+            if len(b0) <= len(P) + 1:
+                continue
+            n = search_from(P, P + b0[len(P):], spent)
+            if n is not None:
+                hits += 1
+                for lab, y in (('own-prefix:prefixed', P + n), ('own-prefix:prefixed-lower', P.lower() + n),
+                               ('own-prefix:bare', n)):
+                    if (lab, y) not in out:
+                        out.append((lab, y))
+    return out
+
+
 def field_starts(x):
     """positions where a field of x begins: 0 and the positions right after a character that is not a letter or digit"""
     return [i for i in range(len(x)) if x[i].isalnum() and (i == 0 or not x[i - 1].isalnum())]
